@@ -208,6 +208,19 @@ def is_pow2(n):
     return n > 0 and (n & (n - 1)) == 0
 
 
+def geom_float_exact(g):
+    """pixel scales are powers of two and the origin a small dyadic: the implementation's pixel-centre
+    coordinates are then computed without rounding."""
+    sy, sx, oy, ox = g
+    for s in (sy, sx):
+        if not ((s.numerator == 1 and is_pow2(s.denominator)) or (s.denominator == 1 and is_pow2(s.numerator))):
+            return False
+    for o in (oy, ox):
+        if not (is_pow2(o.denominator) and o.denominator <= 1 << 10 and abs(o.numerator) <= 1 << 14):
+            return False
+    return True
+
+
 def tie_safe_ratio(lo, hi):
     """an exact tie of the ratio test is decided identically in doubles when both quotients the code
     forms are exact: lo/hi is dyadic (<= 1, no reciprocal taken) or a power of two (> 1)."""
@@ -679,7 +692,7 @@ class C09(PropertyCheck):
             m = [[True, True], [True, True]]
             m[rng.randrange(2)][rng.randrange(2)] = False
         mj = mask_json(m)
-        geom = rand_geom(rng)
+        geom = rand_geom(rng, exact=rng.random() < 0.75)
         g = tuple(F(v) for v in geom)
         P = pixel_centre(mj["h"], mj["w"], g, *unmasked_pixels(mj)[0])
         dy, dx = affine(1, 0, -P[0]), affine(0, 1, -P[1])
@@ -872,8 +885,22 @@ class C09(PropertyCheck):
             fr = None if case["fr"] is None else F(case["fr"])
             rel = None if case["rel"] is None else F(case["rel"])
             exp, band = iterate_expected(table, fr, rel, bool(case.get("exact")))
+            all_zero = all(v == 0 for v in table[0])
+            # the early return tests `np.any(array_sub_1)`: a discrete decision on real values.  When
+            # every exact level-0 value is within the band of zero it is only compared if the doubles
+            # the implementation sees are known (explicit table, or exactly representable geometry
+            # and an evaluation that gives the same all-zero verdict in doubles).
+            uncertain = False
+            if "table" not in case and all(abs(v) <= BAND for v in table[0]):
+                if geom_float_exact(g):
+                    cen = [pixel_centre(h, w, g, y, x) for y, x in px]
+                    fv = ev_np(case["f"], np.array([float(c[0]) for c in cen]),
+                               np.array([float(c[1]) for c in cen]))
+                    uncertain = bool(np.all(fv == 0)) != all_zero
+                else:
+                    uncertain = True
             a.update(expected=exp, band=band, table=table, margin=min(margins) if margins else None,
-                     all_zero_level0=all(v == 0 for v in table[0]))
+                     all_zero_level0=all_zero, early_uncertain=uncertain)
         case["_analysis"] = a
         return a
 
@@ -885,6 +912,8 @@ class C09(PropertyCheck):
         if case["kind"] == "iterate":
             a = self._analysis(case)
             self._check_margin(a)
+            if a["early_uncertain"]:
+                raise Skip("all level-0 values within 1e-9 of zero: the all-zero early return is inside the tie band")
             iv, mv = impl_obs.get("values"), model_obs.get("values")
             if isinstance(iv, list) and isinstance(mv, list) and len(iv) == len(mv) == len(a["band"]):
                 iv = [None if b else v for v, b in zip(iv, a["band"])]
@@ -946,6 +975,8 @@ class C09(PropertyCheck):
                     return False, f"mean of pixel {k}'s sub-centres is not the pixel centre"
             return True, ""
         self._check_margin(a)
+        if a.get("early_uncertain") and not a["all_zero_level0"]:
+            raise Skip("all level-0 values within 1e-9 of zero but not exactly zero")
         vals = obs.get("values")
         if not isinstance(vals, list) or len(vals) != n:
             return False, f"result does not have one value per unmasked pixel: {str(vals)[:100]}"
